@@ -14,3 +14,60 @@ package config_parser
 //@ func (*Function).String
 //@   pure
 //@   trusted
+
+// A quoted literal yields exactly the text between its first and last byte (the two quote
+// characters); nothing else is stripped. qtext() names the token text returned by the ANTLR
+// context; that a QUOTE_STRING token is at least its two quotes long is an assumption about the
+// generated lexer.
+//@ func getValueFromLiteral
+//@   ghostfn qtext() string
+//@   requires literal != nil
+//@   dyncalls noeffect
+//@   modifies *
+//@   at call GetText#2 assume-after result == qtext() && len(result) >= 2
+//@   ensures calls("IQuote_literalContext).GetText") == 1 ==> len(result) == len(qtext()) - 2
+//@   ensures calls("IQuote_literalContext).GetText") == 1 ==> (forall i int {result[i]} :: 0 <= i && i < len(result) ==> result[i] == qtext()[i+1])
+//@   ensures calls("Quote_literal") == 1
+
+// The walker turns the ANTLR parse tree into sections / params / rules. Shapes of the tree that the
+// grammar guarantees (which child is which context type) are taken as type assertions; what is
+// checked is that the walker's own control flow never dereferences nil or indexes out of range.
+//@ func (*Walker).parseFunctionPrototype
+//@   requires w != nil
+//@   nonilcheck
+//@   dyncalls noeffect
+//@   modifies *
+//@   ensures result != nil ==> fresh(result)
+
+// grammar: outboundExpr : bare_literal | functionPrototype  (bl() names which alternative is present)
+//@ func (*Walker).parseRoutingRule
+//@   requires w != nil
+//@   ghostfn bl() bool
+//@   at call Bare_literal#1 assume-after (result != nil) == bl()
+//@   at call FunctionPrototype#1 assume-after !bl() ==> result != nil
+//@   dyncalls noeffect
+//@   modifies *
+//@   ensures result != nil ==> fresh(result)
+
+// The walker's type assertions and child indices are justified by the grammar only for a tree that
+// was built without error recovery: Parse must not walk when the lexer or parser reported an error.
+//@ func NewWalker
+//@   ensures result != nil && fresh(result)
+//@ func Parse
+//@   anchorsonly
+//@   dyncalls noeffect
+//@   modifies *
+//@   at call Walk#1 assert errorListener.ErrorBuilder.Len() == 0
+
+//@ func (*Walker).parseDeclaration
+//@   requires w != nil
+//@   nonilcheck
+//@   dyncalls noeffect
+//@   modifies *
+//@   ensures result != nil ==> fresh(result)
+
+//@ func (*Walker).parseFunctionPrototypeExpression
+//@   requires w != nil
+//@   nonilcheck
+//@   dyncalls noeffect
+//@   modifies *
